@@ -592,15 +592,23 @@ SpanRef<const T> mono_extend(MonotonicBuffer<T> &cur, SpanRef<const T> original,
 }
 
 Circuit &Circuit::operator+=(const Circuit &other) {
+    if (&other == this) {
+        // Snapshot the instructions first: fusing at the seam edits the last instruction, which is also one of the
+        // instructions being appended (and inserting a vector's own range into itself is not allowed).
+        std::vector<CircuitInstruction> ops_copy = operations;
+        size_t skip = 0;
+        if (!ops_copy.empty() && operations.back().can_fuse(ops_copy[0])) {
+            operations.back().targets = mono_extend(target_buf, operations.back().targets, ops_copy[0].targets);
+            skip = 1;
+        }
+        operations.insert(operations.end(), ops_copy.begin() + skip, ops_copy.end());
+        return *this;
+    }
+
     SpanRef<const CircuitInstruction> ops_to_add = other.operations;
     if (!operations.empty() && !ops_to_add.empty() && operations.back().can_fuse(ops_to_add[0])) {
         operations.back().targets = mono_extend(target_buf, operations.back().targets, ops_to_add[0].targets);
         ops_to_add.ptr_start++;
-    }
-
-    if (&other == this) {
-        operations.insert(operations.end(), ops_to_add.begin(), ops_to_add.end());
-        return *this;
     }
 
     uint32_t block_offset = (uint32_t)blocks.size();
